@@ -52,6 +52,8 @@ type interpreter struct {
 	methodCache        map[methodKey]*ssa.Function
 	extCache           map[*ssa.Function]externalFn
 	extMiss            map[*ssa.Function]bool
+	summaries          map[*ssa.Function]*fnSummary
+	inSummary          bool
 }
 
 type methodKey struct {
@@ -582,6 +584,12 @@ func callSSA(i *interpreter, caller *frame, callpos token.Pos, fn *ssa.Function,
 				chain += " <- " + f.fn.String()
 			}
 			panic(pathEnd{stUnsupported, "no code for function: " + fn.String() + chain})
+		}
+	}
+
+	if summarizable[fn.String()] {
+		if v, ok := i.trySummary(fr, fn, args); ok {
+			return v
 		}
 	}
 
